@@ -36,14 +36,50 @@ def showClients (cs : List (Nat × CState)) : String :=
 
 def idShow (n : Nat) : String := s!"Id({n})"
 
+def msgSx : RMsg → SExp
+  | .internal => .atom "internal"
+  | .put r v => .list [.atom "put", .ofNat r, .ofNat v]
+  | .get r => .list [.atom "get", .ofNat r]
+  | .putOk r => .list [.atom "putok", .ofNat r]
+  | .putFail r => .list [.atom "putfail", .ofNat r]
+  | .getOk r v => .list [.atom "getok", .ofNat r, .ofNat v]
+
+/-- the messages the clients send at start (model `Client.start`), as `(client dst msg)` -/
+def initSends (actors : List ActorDesc) : List SExp :=
+  actors.zipIdx.flatMap fun x =>
+    match x.1 with
+    | .client c => match c.start x.2 with
+      | some (_, outs) => outs.map fun o => SExp.list [.ofNat x.2, .ofNat o.1, msgSx o.2]
+      | none => []
+    | .server _ => []
+
+/-- the messages a client sends in reaction to a delivery (model `Client.onMsg`) -/
+def actSends {H} (wo : Bool) (actors : List ActorDesc) (s : RSys H) : Act → List SExp
+  | .deliverC dst msg =>
+    match clientAt actors dst, AMap.find? dst s.clients with
+    | some c, some st => match c.onMsg wo dst st msg with
+      | some (_, outs) => outs.map fun o => SExp.list [.ofNat dst, .ofNat o.1, msgSx o.2]
+      | none => []
+    | _, _ => []
+  | _ => []
+
+/-- `runPath`, also collecting what the clients send -/
+def runPathSends {H Op Ret} (I : Iface H Op Ret) (wo ordered : Bool) (actors : List ActorDesc) :
+    RSys H → List Act → List SExp → Option (RSys H × List SExp)
+  | s, [], acc => some (s, acc)
+  | s, a :: rest, acc =>
+    match act I wo ordered actors s a with
+    | none => none
+    | some s' => runPathSends I wo ordered actors s' rest (acc ++ actSends wo actors s a)
+
 def rcRun {H Op Ret} (I : Iface H Op Ret) (h0 : H) (wo ordered : Bool) (actors : List ActorDesc)
     (path : List Act) (show_ : H → String) : String :=
   match RC.init I h0 actors with
   | none => "panic"
   | some s0 =>
-    match runPath I wo ordered actors s0 path with
+    match runPathSends I wo ordered actors s0 path (initSends actors) with
     | none => "not-a-step"
-    | some s => s!"clients={showClients s.clients} ;; dbg={show_ s.hist}"
+    | some (s, sends) => s!"clients={showClients s.clients} ;; sends={SExp.list sends} ;; dbg={show_ s.hist}"
 
 /-! ### the mirror oracle -/
 /-- client-visible events reconstructed from a path by the harness: `(send c msg)` / `(acc c msg)` -/
